@@ -78,4 +78,72 @@ theorem wildcard_empty_label_old_code_matched :
     labelsMatchOld (splitOn cDot [cStar]) (splitOn cDot []) = true ∧ entryMatches [] [cStar] = false := by
   decide
 
+/-! ### wave h: the lock-step comparator of `%` patterns (`matchPatternWithEscapeSequence`) at its
+    index boundaries — three clauses the unchanged tree violates (known findings, classes
+    `path-rule-mismatch:escaped-pattern-matches-longer-path`, `path-spelling:pct-wildcard-terminator`,
+    `path-spelling:pct-encoded-dot-segment`) -/
+
+/-- FULL STATEMENT (false): a star-free pattern matches exact paths only:
+      `∀ pat p e x, ¬ pat.contains '*' → x ≠ [] → pathCase [pat] p e → pathCase [pat] (p ++ x) (e ++ x) = false`.
+    Counter-example `wEscRest`: `/sp%20ace` matches `/sp%20ace` AND `/sp%20acex` — the loop ends when
+    the pattern is used up (`iPattern >= len(matchPath)`) and the rest of the path is never looked at.
+    Provable part for patterns without `%`: `matchPath_exact_rule`. -/
+theorem matchPath_escaped_exact_full_fails :
+    ∃ (pat p e x : Bytes), pat.contains cStar = false ∧ x ≠ [] ∧
+      pathCase [pat] p e = true ∧ pathCase [pat] (p ++ x) (e ++ x) = true :=
+  ⟨[47, 115, 112, 37, 50, 48, 97, 99, 101], wEscRest.p1, wEscRest.e1, [120], by decide⟩
+
+theorem wEscRest_is_the_witness :
+    wEscRest.p2 = wEscRest.p1 ++ [120] ∧ wEscRest.e2 = wEscRest.e1 ++ [120] ∧
+    wEscRest.pats = [[47, 115, 112, 37, 50, 48, 97, 99, 101]] := by decide
+
+/-- FULL STATEMENT (false): percent-encoding an unreserved byte of the request at a place where
+    the pattern has no escape never matters.  Counter-example `wEscTerm`: `/k%20*z` matches
+    `/k%20axz` and not `/k%20ax%7A`: the byte ending the `*` span is searched with IndexByte in the
+    raw text (`escSpan`'s `indexOf nextCh ep'`), an encoded `z` is not found and the loop rejects. -/
+theorem matchPath_pct_wildcard_terminator_full_fails :
+    ∃ (l : List Bytes) (p e e' : Bytes), pathUnescape e = some p ∧ pathUnescape e' = some p ∧
+      pathCase l p e = true ∧ pathCase l p e' = false :=
+  ⟨wEscTerm.pats, wEscTerm.p1, wEscTerm.e1, wEscTerm.e2, by decide⟩
+
+/-- FULL STATEMENT (false): dot segments never matter, however they are spelt.  Counter-example
+    `wEscDot`: `/%*/y` matches `/./dx/y` and not `/%2e/dx/y` (same decoded path): for a `%` pattern
+    `cleanPathMode` runs over the escaped text, where `%2e` is not a dot segment.
+    Provable part: `matchPath_dot_segments_invariant` (dot segments spelt literally). -/
+theorem matchPath_encoded_dot_segment_full_fails :
+    ∃ (l : List Bytes) (p e e' : Bytes), pathUnescape e = some p ∧ pathUnescape e' = some p ∧
+      pathCase l p e = true ∧ pathCase l p e' = false :=
+  ⟨wEscDot.pats, wEscDot.p1, wEscDot.e1, wEscDot.e2, by decide⟩
+
+/-- boundary of `len(escapedPath) >= iPath+3`: an escape occupying the LAST three bytes of the path
+    is decoded (`/foo%2Fbar/ba%7A` matches `/foo%2fbar/baz` like the canonical spelling); an escape in
+    the FIRST bytes after the slash and two adjacent escapes as well -/
+theorem escape_at_end_of_path_is_decoded :
+    pathCase wEscEnd.pats wEscEnd.p1 wEscEnd.e1 = true ∧ pathCase wEscEnd.pats wEscEnd.p2 wEscEnd.e2 = true ∧
+    pathCase wEscEnd.pats wEscEnd.p1 [47, 37, 54, 54, 111, 111, 37, 50, 70, 98, 97, 114, 47, 98, 97, 122] = true ∧
+    pathCase wEscEnd.pats wEscEnd.p1 [47, 102, 111, 37, 54, 70, 37, 50, 70, 37, 54, 50, 97, 114, 47, 98, 37, 54, 49, 37, 55, 65] = true ∧
+    pathCase [[47, 102, 105, 108, 101, 115, 47, 97, 37, 50, 102]] [47, 102, 105, 108, 101, 115, 47, 97, 47] [47, 102, 105, 108, 101, 115, 47, 97, 37, 50, 70] = true := by
+  decide
+
+/-- the loop step at the boundary, for every pattern and every text built so far: with a literal
+    pattern byte in front and exactly three bytes `%ab` of path left, the escape is decoded and the
+    path is used up (the comparison `erest.length ≥ 2` is `len(escapedPath) >= iPath+3`) -/
+theorem escLoop_decodes_escape_in_last_three_bytes (fuel : Nat) (pc a b : UInt8) (prest sb : Bytes)
+    (h1 : pc ≠ cPct) (h2 : pc ≠ cStar) :
+    escLoop (fuel + 1) (pc :: prest) [cPct, a, b] sb =
+      match pathUnescape (lower [cPct, a, b]) with
+      | none => .reject
+      | some ch => escLoop fuel prest [] (sb ++ ch) := by
+  cases h : pathUnescape (lower [cPct, a, b]) <;> simp [escLoop, h1, h2, h]
+
+example : escLoop 5 [122] [cPct, 55, 65] [47] = .built [47, 122] := by decide
+
+/-- … and with only two bytes left a `%` is an ordinary byte (cannot happen for an EscapedPath) -/
+theorem escLoop_short_escape_is_literal (fuel : Nat) (pc a : UInt8) (prest sb : Bytes)
+    (h1 : pc ≠ cPct) (h2 : pc ≠ cStar) :
+    escLoop (fuel + 1) (pc :: prest) [cPct, a] sb = escLoop fuel prest [a] (sb ++ [cPct]) := by
+  simp [escLoop, h1, h2]
+
+example : escLoop 5 [122] [cPct, 55] [47] = .built [47, 37] := by decide
+
 end CaddyModel.C06
